@@ -17,6 +17,7 @@ import (
 	"github.com/ethereum/go-ethereum/common"
 	"github.com/ethereum/go-ethereum/crypto"
 	layertypes "github.com/tellor-io/layer/types"
+	"github.com/tellor-io/layer/utils"
 	"github.com/tellor-io/layer/x/bridge/types"
 
 	"cosmossdk.io/collections"
@@ -960,8 +961,8 @@ func (k Keeper) EncodeOracleAttestationData(
 	var queryIdBytes32 [32]byte
 	copy(queryIdBytes32[:], queryId)
 
-	// Convert value to bytes
-	valueBytes, err := hex.DecodeString(value)
+	// Convert value to bytes; reports may carry an optional 0x prefix
+	valueBytes, err := hex.DecodeString(utils.Remove0xPrefix(value))
 	if err != nil {
 		return nil, err
 	}
